@@ -1733,3 +1733,18 @@ def _degenerate_extent_dimension(repo, ob, failure):
 
 GENERATORS.insert(0, ("C08.root.no_dimension", _degenerate_extent_dimension))
 GENERATORS.insert(0, ("C08.root.derived", _degenerate_extent_dimension))
+
+
+def _target_id_class(repo, ob, failure):
+    """an instance carries the id its target is registered under as a class, not the id attribute re-evaluated with the reuse's variables"""
+    import re as _re
+    doc = '<svg><var i="1"/><rect id="t$i" wh="{{$i + 1}}"/><reuse href="#t1" i="7" x="20" y="0"/></svg>'
+    r = run_svgdx(repo, doc, args=("--no-auto-styles",))
+    m = _re.search(r'<rect x="20"[^>]*>', r["out"])
+    if r["rc"] == 0 and m and 'class="t1"' not in m.group(0):
+        return {"input": doc, "args": ["--no-auto-styles"], "observed": m.group(0), "expected": '... class="t1"'}
+    return None
+
+
+GENERATORS.insert(0, ("C18.carry.classes", _target_id_class))
+GENERATORS.insert(0, ("C18.carry.target_id", _target_id_class))
